@@ -19,7 +19,36 @@ INTS = ['u8', 'u16', 'u32', 'i8', 'i16', 'i32', 'u64', 'i64']
 
 def generate(rng, tier):
     n = 400 if tier == 'quick' else 8000
-    return [graph_case(rng, 'g%d' % i) for i in range(n)]
+    return [graph_case(rng, 'g%d' % i) for i in range(n)] + [big_stuck_case(rng, 'big%d' % i) for i in range(max(6, n // 60))]
+
+def big_stuck_case(rng, cid):
+    """9-20 types that all (transitively, by value) hang on one undefined name or one cycle, spread over 1-3 modules, plus a few
+    that only point at them: the error must list EVERY stuck type, however many there are"""
+    k = rng.randint(9, 20)
+    mods = [['b%d' % j] for j in range(rng.randint(1, 3))]
+    home = {i: rng.choice(mods) for i in range(k + 3)}
+    defs = {tuple(m_): [] for m_ in mods}
+    uses = {tuple(m_): [] for m_ in mods}
+    def ref(frm, to):
+        if home[frm] != home[to]:
+            u = path(*(home[to] + ['S%d' % to]))
+            if u not in uses[tuple(home[frm])]: uses[tuple(home[frm])].append(u)
+        return 'S%d' % to
+    for i in range(k):
+        if i == 0:
+            flds = [field(True, 'bad', ty_id('Missing') if rng.random() < 0.6 else ty_id(ref(0, k - 1)))]
+        else:
+            t = ty_id(ref(i, rng.randrange(i) if rng.random() < 0.5 else i - 1))
+            r = rng.random()
+            if r < 0.3: t = ty_arr(t, 2)
+            at = [a_ident('base')] if r > 0.8 else []
+            flds = [field(True, 'v', t, at), field(True, 'n', ty_id('u32'))]
+        defs[tuple(home[i])].append(type_def(True, 'S%d' % i, [a_ident('packed')], flds))
+    for i in range(k, k + 3):
+        defs[tuple(home[i])].append(type_def(True, 'S%d' % i, [a_ident('packed')], [field(True, 'p', ty_cptr(ty_id(ref(i, rng.randrange(k)))))]))
+    ents = [modent(path(*m_), module(uses=uses[tuple(m_)], defs=defs[tuple(m_)])) for m_ in mods]
+    rng.shuffle(ents)
+    return case(cid, rng.choice([4, 8]), ents)
 
 def graph_case(rng, cid):
     nm = rng.randint(1, 4)
